@@ -501,7 +501,7 @@ def _err_ok(got, e, v) -> bool:
     return False
 
 
-def compare(scn, exp, got, hz) -> Optional[str]:
+def compare(scn, exp, got, hz, check_subs: bool = True) -> Optional[str]:
     """None when the real observation equals this allowed observation on the asserted projection."""
     if isinstance(got["escaped"], Hang):
         return "hang:the run did not finish"
@@ -530,17 +530,31 @@ def compare(scn, exp, got, hz) -> Optional[str]:
             return f"value:{v!r}"
         if k == "E" and not _err_ok(got, e, v):
             return f"error:{type(v).__name__}"
+    if not check_subs:
+        return None          # two subscribers: the source's subscription log is judged for both together (subs_joint)
     if op in HOT_OPS and exp["subAt"] >= 0:
         subs = got["subs"]
-        if len(subs) != (2 if got.get("rec2") is not None or got.get("second") else 1):
+        if len(subs) != 1:
             return f"subscriptions:{len(subs)}"
-        # source subscriptions are logged in the order they were made: the first subscriber's comes first
-        nth = 1 if got.get("second") else 0
-        if nth < len(subs) and clk.tick(subs[nth][0] - (got["off2"] if nth else 0)) != exp["subAt"]:
-            return f"subscribed_at:{clk.tick(subs[nth][0])}!={exp['subAt']}"
+        if clk.tick(subs[0][0]) != exp["subAt"]:
+            return f"subscribed_at:{clk.tick(subs[0][0])}!={exp['subAt']}"
     if op in HOT_OPS and exp["subAt"] < 0 and got["subs"]:
         return "subscribed although the subscription delay never elapsed"
     return None
+
+
+def subs_joint(got, cands1, cands2, off_ticks) -> Optional[str]:
+    """Two subscribers: each subscribes the source at the instant its own expectation gives (subAt relative to ITS
+    subscription instant), or not at all (subAt < 0: it disposed / never got that far). The source's subscription log
+    must be exactly those instants, for some pair of observations allowed for the two subscribers."""
+    clk = got["clk"]
+    seen = sorted(clk.tick(x[0]) for x in got["subs"])
+    for a1 in cands1:
+        for a2 in cands2:
+            want = sorted([a1] * (a1 >= 0) + [a2 + off_ticks] * (a2 >= 0))
+            if want == seen:
+                return None
+    return f"subscriptions:{seen} expected one of {sorted({(a1, a2 + off_ticks if a2 >= 0 else a2) for a1 in cands1 for a2 in cands2})}"
 
 
 def drift(scn, exp, got) -> Optional[str]:
@@ -631,11 +645,18 @@ def judge(scn, allowed, cfg, sibs=None):
         # a stall of the (shared, loaded) machine must not be mistaken for a hang: run it again with more patience
         HANGS[scn["op"]] -= 1
         got = run_scenario(scn, dict(cfg, patience=3))
-    if got["rec2"] is not None:
+    twice = got["rec2"] is not None
+    if twice:
         # judge the second subscriber first; the first one below
         got2 = dict(got, rec=got["rec2"], rec2=None, second=True)
-        if not any(compare(scn2, exp, got2, cfg["hz"]) is None for exp in allowed2):
-            r = compare(scn2, allowed2[0], got2, cfg["hz"])
+        ok2 = [exp for exp in allowed2 if compare(scn2, exp, got2, cfg["hz"], check_subs=False) is None]
+        ok1 = [exp for exp in allowed if compare(scn, exp, got, cfg["hz"], check_subs=False) is None]
+        r = None
+        if not ok2:
+            r = compare(scn2, allowed2[0], got2, cfg["hz"], check_subs=False)
+        elif ok1 and scn["op"] in HOT_OPS:
+            r = subs_joint(got, {e["subAt"] for e in ok1}, {e["subAt"] for e in ok2}, cfg.get("off2", 0))
+        if r is not None:
             rec = {"engine": "optime", "op": scn["op"], "scn": scn, "cfg": cfg, "expected": allowed, "observed": describe(got2),
                    "reason": "second_subscriber:" + r, "reason_kind": "second_subscriber", "clock": cfg.get("clock", "test"),
                    "mode": cfg.get("mode"), "scn_second": scn2, "expected_second": allowed2,
@@ -643,7 +664,7 @@ def judge(scn, allowed, cfg, sibs=None):
             return rec, None
     reasons, drifts, matched = [], [], False
     for exp in allowed:
-        r = compare(scn, exp, got, cfg["hz"])
+        r = compare(scn, exp, got, cfg["hz"], check_subs=not twice)
         if r is None:
             matched = True
             drifts.append(drift(scn, exp, got))
